@@ -9,7 +9,7 @@ CHECK = {
  'level': 'exploration',
  'technique': 'exhaustive enumeration of start schedules (delay vectors x settle models, 2-4 real controllers) of the real Run in one virtual-time bubble; interval-overlap oracle',
  'rule': '2 fans: all 7 start delays {0,1ms,3ms,0.7s,1.4s,20s, after the previous fan finished} x 3x3 settle models; 3 fans (quick: 4 delays^2 x 2^3 models; thorough: 7^2 x 3^3) and 4 fans '
-         '(thorough: 4^3 x 2^4); every fan needs analysis: nothing stored (sweep + RPM-curve measurement, about 9 virtual minutes), nothing stored with a configured pwmMap (measurement only) or only the RPM curve stored (sweep only); mixed kinds on steady-settle schedules. With the option false the analysis intervals must be pairwise '
+         '(thorough: 4^3 x 2^4); every fan needs analysis: nothing stored (sweep + RPM-curve measurement, about 9 virtual minutes), nothing stored with a configured pwmMap (measurement only) or only the RPM curve stored (sweep only); mixed kinds on steady-settle schedules. Additionally a shutdown request (context cancelled after 4/8/12/20 s) while one fan is analysed and others are queued (short analyses, 6 kind assignments x 3 start delays): a queued fan still waits for its turn. With the option false the analysis intervals must be pairwise '
          'disjoint and every fan must finish; with the option true a sample of the same schedules is run to show overlap is observable (non-vacuity). '
          'distinct_nontrivial = distinct (schedule, interval vector) outcomes.',
  'assumptions': COMMON_ASSUME + ['vsync.Mutex (Cond-based) replaces sync.Mutex in the controller package so that lock waits are durable blocks for the virtual clock',
